@@ -301,7 +301,15 @@ def rule_r7(ctx):
             ctx.r.violation(rid, key_of(s, None, "stop-without-notify_all"), "stop_count raised without notify_all: idle workers never see the stop request", s.loc(i.ast))
 
 
-RULES = [rule_r1, rule_r2, rule_r3, rule_r4, rule_r5, rule_r6, rule_r7]
+def rule_r8(ctx):
+    """Shared with C04.R4: a queued request always has a task - the dispatch guards are exact on the abstract
+    queue length, evaluated under the requests lock (no stale value decides)."""
+    from .c04 import rule_r4 as c04r4
+
+    c04r4(ctx, rid="C05.R8")
+
+
+RULES = [rule_r1, rule_r2, rule_r3, rule_r4, rule_r5, rule_r6, rule_r7, rule_r8]
 
 from ..selftest import M, T, V  # noqa: E402
 
@@ -322,6 +330,7 @@ selftest = [
     M("stop-notify-one", "task.py", "                self.stop_count += running - count\n                self.queue_cv.notify_all()", "                self.stop_count += running - count\n                self.queue_cv.notify()", "R7"),
     M("wait-without-pull", "channel.py", "                    self.server.pull_trigger()\n                    self.outbuf_lock.wait()\n\n                    return", "                    self.outbuf_lock.wait()\n\n                    return", "R2"),
     M("no-notify-on-close", "channel.py", "            self.connected = False\n            self.outbuf_lock.notify()\n", "            self.connected = False\n", None),
+
     T("pull-in-finally", "channel.py", "        if self.connected:\n            self.server.pull_trigger()\n\n        self.last_activity = time.time()\n\n    def cancel", "        try:\n            self.last_activity = time.time()\n        finally:\n            if self.connected:\n                self.server.pull_trigger()\n\n    def cancel"),
     T("direct-trigger-pull", "channel.py", "        if self.connected:\n            self.server.pull_trigger()\n\n        self.last_activity", "        if self.connected:\n            self.server.trigger.pull_trigger()\n\n        self.last_activity"),
     T("always-pull-in-write_soon", "channel.py", "                    if (\n                        exception\n                        or not flushed\n                        or self.total_outbufs_len >= self.adj.send_bytes\n                    ):\n                        self.server.pull_trigger()", "                    self.server.pull_trigger()"),
